@@ -48,8 +48,9 @@ CloserId == NCallers + 1  \* b.lock held by Broker.Close
 FirerId == NCallers + 2   \* b.lock held by the goroutine that sends requests without response
 \* wrongid/nested/ooo: well-framed frames with a correlation id that is not the oldest outstanding one;
 \* bodystall: intact header, fewer body bytes than announced, connection stays open and the peer goes on
-\* answering after the client's read timeout; runt: length field <= 4 (no room for a body; shorter than a
-\* header); oversize: length > MaxResponseSize; close: abrupt close;
+\* answering after the client's read timeout; runt: a header that fails to decode while the peer goes on: length field <= 4 (no room for
+\* a body; shorter than a header) - on the wire also a flexible v1 header with a NON-EMPTY tagged-field
+\* section (kind hdrtags in the traces); oversize: length > MaxResponseSize; close: abrupt close;
 \* shortbody: well-framed frame whose body cannot be decoded - only that call fails, NOT a connection fault
 FaultKinds == {"wrongid", "nested", "ooo", "bodystall", "runt", "oversize", "close", "shortbody"}
 Kinds == {"ok"} \cup FaultKinds
